@@ -34,9 +34,13 @@ Definition lang_match (expr : str) (it vals : item) (names : fmap str) : outcome
            end
   end.
 
-(* Environment.Apply: every attribute of the environment is written back; placeholders are excluded *)
-Definition apply_env (e : env) (vals : item) : item :=
-  flat_map (fun kv => if mem (fst kv) vals then [] else [(fst kv, of_obj (snd kv))]) (store e).
+(* Environment.Apply: every attribute of the environment is written back onto the item; the names of the value
+   placeholders are excluded, so an attribute of the item that is literally named like one of them is neither
+   overwritten nor removed: it stays as it was *)
+Definition apply_env (e : env) (it vals : item) : item :=
+  fold_right (fun kv acc => insert (fst kv) (snd kv) acc)
+             (flat_map (fun kv => if mem (fst kv) vals then [] else [(fst kv, of_obj (snd kv))]) (store e))
+             (filter (fun kv => mem (fst kv) vals) it).
 
 Definition lang_update (expr : str) (it vals : item) (names : fmap str) : outcome item :=
   match parse_upd expr with
@@ -50,7 +54,7 @@ Definition lang_update (expr : str) (it vals : item) (names : fmap str) : outcom
                | None => Err Unsupported
                | Some st2 =>
                    match eval_update_stmt {| store := st2; aliases := names |} ast with
-                   | Some e' => Ok (apply_env e' vals)
+                   | Some e' => Ok (apply_env e' it vals)
                    | None => Err Syntax
                    end
                end
